@@ -426,6 +426,41 @@ theorem maxRepackLimit_le (l : LimitOption) (total : Nat)
   | size s => exact hs s rfl
   | percentage p => exact Nat.le_trans (Nat.div_le_self _ _) (Nat.min_le_left _ _)
 
+/-- What a percentage means for `max_unused` (the comment in `decide_repack`): an amount of unused data is
+within the limit exactly when it is at most `p` % of the repository size *after* pruning (`used + unused`),
+as long as the product fits u64 (otherwise the saturated product makes the limit smaller, never larger:
+`maxUnusedLimit_pct_sound`). -/
+theorem maxUnusedLimit_pct_meaning {p used unused : Nat} (hp : p < 100) (hfit : p * used ≤ u64Max) :
+    unused ≤ maxUnusedLimit false (.percentage p) used ↔ 100 * unused ≤ p * (used + unused) := by
+  have hnp : ¬ p ≥ 100 := by omega
+  have hmin : min u64Max (p * used) = p * used := by omega
+  simp only [maxUnusedLimit, Bool.false_eq_true, if_false, hnp, hmin]
+  rw [Nat.le_div_iff_mul_le (by omega : 0 < 100 - p), Nat.mul_add, Nat.mul_sub]
+  have : p * unused ≤ 100 * unused := Nat.mul_le_mul_right _ (by omega)
+  have e1 : unused * 100 = 100 * unused := Nat.mul_comm _ _
+  have e2 : unused * p = p * unused := Nat.mul_comm _ _
+  omega
+
+/-- Saturation only tightens the limit: whatever is within the computed limit is within `p` %. -/
+theorem maxUnusedLimit_pct_sound {p used unused : Nat} (hp : p < 100)
+    (h : unused ≤ maxUnusedLimit false (.percentage p) used) : 100 * unused ≤ p * (used + unused) := by
+  have hnp : ¬ p ≥ 100 := by omega
+  simp only [maxUnusedLimit, Bool.false_eq_true, if_false, hnp] at h
+  rw [Nat.le_div_iff_mul_le (by omega : 0 < 100 - p)] at h
+  have h2 : unused * (100 - p) ≤ p * used := Nat.le_trans h (Nat.min_le_right _ _)
+  rw [Nat.mul_sub, Nat.mul_add] at *
+  have : p * unused ≤ 100 * unused := Nat.mul_le_mul_right _ (by omega)
+  have e1 : unused * 100 = 100 * unused := Nat.mul_comm _ _
+  have e2 : unused * p = p * unused := Nat.mul_comm _ _
+  omega
+
+/-- `max_repack` as a percentage: `x` bytes are within the limit iff they are at most `p` % of the total. -/
+theorem maxRepackLimit_pct_meaning {p total x : Nat} (hfit : p * total ≤ u64Max) :
+    x ≤ maxRepackLimit (.percentage p) total ↔ 100 * x ≤ p * total := by
+  have hmin : min u64Max (p * total) = p * total := by omega
+  simp only [maxRepackLimit, hmin]
+  rw [Nat.le_div_iff_mul_le (by omega : 0 < 100), Nat.mul_comm]
+
 theorem checkRabinParams_eq_old {size mn mx : Nat} (hmn : mn ≠ 0) (hs : size ≠ 0) :
     checkRabinParams size mn mx = checkRabinParamsOld size mn mx := by
   unfold checkRabinParams checkRabinParamsOld
